@@ -67,7 +67,17 @@ def apply_per_file(repo, diff):
     if not parts:  # plain unified diff without git headers
         parts = re.split(r"(?m)^(?=--- a/)", text)[1:]
     applied = 0
+    # split every file section into one patch per hunk
+    pieces = []
     for part in parts:
+        m = re.search(r"(?m)^@@ ", part)
+        if not m:
+            continue
+        fhead, body = part[: m.start()], part[m.start():]
+        for h in re.split(r"(?m)^(?=@@ )", body):
+            if h.strip():
+                pieces.append(fhead + h)
+    for part in pieces:
         tmp = Path(tempfile.mkstemp(suffix=".diff")[1])
         tmp.write_text(part)
         try:
@@ -148,13 +158,33 @@ def main():
         shutil.rmtree(scratch, ignore_errors=True)
 
 
+SURVIVOR_NOTES = {
+    ("C03", "axis_overlap_floor_to_round"): "equivalent: compute_axis_overlap is only reached with a snapped transform (unit scale, integer translation), where floor == round",
+    ("C03", "axis_overlap_ceil_to_floor"): "equivalent: same reason (integer arguments)",
+    ("C03", "dst_out_floor"): "equivalent: same reason (integer arguments)",
+    ("C03", "sampled_path_no_padding"): "equivalent w.r.t. the statement: with an exact (curvature-free) envelope, padding 0 still contains every needed pixel; padding is a safety margin for resampling kernels",
+    ("C03", "diffcrs_padding_zero"): "equivalent w.r.t. the statement inside the decided domain (cases with envelope curvature > 0.25 px are excluded by the oracle-side filter)",
+    ("C05", "SURVIVED-shrink2-ceil"): "equivalent: padding to 2^levels makes every halved size even",
+    ("C08", "tol_ignored"): "allowed by C08 (full cover, still < 1+tol px larger than necessary); the same change is killed under C20 (snap_tol_ignored) where 'minimal' is stated",
+    ("C17", "points_int32_again"): "equivalent by construction (values are clamped before the cast) - control mutant",
+    ("C17", "touching_as_overlap"): "equivalent: both variants return empty index sets for touching slices (badly chosen mutant)",
+    ("C19", "geobox_hash_no_affine"): "coherent: equal objects still have equal hashes (only hash quality changes)",
+    ("C19", "gbtiles_eq_ignores_gbox"): "coherent under the statement: unhashable type, equal objects may have different tokens",
+    ("C19", "gridspec_eq_ignores_bins"): "coherent under the statement: unhashable type, equal objects may have different tokens",
+    ("C19", "xy_eq_asymmetric"): "ineffective: Python consults the subclass' reflected __eq__ first, behaviour unchanged",
+    ("C20", "split_ge_half"): "within the contract: the fraction stays in [-0.5, 0.5] and the parts still sum to x",
+}
+
+
 def report(resdir):
     lines = ["# Sensitivity results (generated by tools/mutate.py --report)", "",
              "Each mutant is a small change to a scratch copy of the repository; `killed` = the property's check exited 1 with a VIOLATION line.", "",
              "| property | mutant | what | result | tier | wall s | sub-checks that fired | repo suite |", "|---|---|---|---|---|---|---|---|"]
     for p in sorted(resdir.glob("*.json")):
         for name, e in sorted(json.loads(p.read_text()).items()):
-            lines.append(f"| {p.stem} | {name} | {e.get('what','')} | {e.get('status')} | {e.get('tier','')} | {e.get('wall_s','')} | {', '.join(e.get('by', []))} | {e.get('suite','')} |")
+            note = SURVIVOR_NOTES.get((p.stem, name), "")
+            what = e.get("what", "") + ((" - SURVIVOR: " + note) if e.get("status") == "SURVIVED" else "")
+            lines.append(f"| {p.stem} | {name} | {what} | {e.get('status')} | {e.get('tier','')} | {e.get('wall_s','')} | {', '.join(e.get('by', []))} | {e.get('suite','')} |")
     (ROOT / "sensitivity" / "RESULTS.md").write_text("\n".join(lines) + "\n")
     print("\n".join(lines[-40:]))
 
